@@ -26,7 +26,9 @@ class C09(Spec):
     rule = ("phist: a fixed probe set (Marshal/Unmarshal of plain, deeply nested, recursive, same-named (two packages, two function-local "
             "types), equal-hash reflect.StructOf and pointer-receiver-marshaler types) executed in a FRESH PROCESS after a prelude (permuted first use, Pretouch/PretouchMany with inline/recursion depths, "
             "thousands of filler types forcing rehash) and compared with a fresh process without prelude and with encoding/json "
-            "(non-trivial: prelude is not `none`); the decoder-relevant families also with the alternative decoder (SONIC_USE_OPTDEC=1, baseline of the same configuration); order: one key set inserted in different orders / capacities on the real _ProgramMap vs the model")
+            "(non-trivial: prelude is not `none`); group ops: for struct types with ,string/omitempty/renamed fields over named basic kinds with "
+            "value-/pointer-receiver (Text)Marshalers/Unmarshalers every operation (Marshal by value / by pointer / inside interface, slice, "
+            "map; Unmarshal; Pretouch) alone and after other operations on the SAME type, also under the VM encoder + alternative decoder; the decoder-relevant families also with the alternative decoder (SONIC_USE_OPTDEC=1, baseline of the same configuration); order: one key set inserted in different orders / capacities on the real _ProgramMap vs the model")
     trusted_base = ["the compiler and the generated code are not modelled here: that programs compiled with different inline/recursion "
                     "depths behave alike is tied by the hist correspondence only",
                     "os/exec fresh-process isolation of the harness"]
@@ -43,6 +45,8 @@ class C09(Spec):
         return [
             Stream("hist", "c09.hist", 1, timeout=20.0, use_model=False),
             Stream("hist-optdec", "c09.histopt", 1, envs={"optdec": {"SONIC_USE_OPTDEC": "1"}}, timeout=20.0, use_model=False),
+            Stream("hist-vm-optdec", "c09.histops", 1, envs={"vm-optdec": {"SONIC_USE_OPTDEC": "1", "SONIC_ENCODER_USE_VM": "1"}},
+                   timeout=20.0, use_model=False),
             Stream("order", "c09.order", 150 if q else 3000, timeout=0.2),
         ]
 
@@ -124,6 +128,50 @@ class C09(Spec):
                 facts["optdec.compileStruct"] = "namedPtr rule NOT first"
                 tie("optdec-namedptr-rule-after-depth-test", "optdec compileStruct tests depth/width before the defined-pointer rule "
                     "(witness: Props.C09.optdec_namedptr_depth_test_first_depends_on_inline_depth)")
+            # (e) the []FieldMeta returned by resolver.ResolveStruct is the process-wide cached slice (fieldCache): outside
+            # internal/resolver nothing may store through it, and pointers into it are limited to the expectation table
+            allowed_ptrs = {"internal/encoder/compiler.go": {"p.VField(ir.OP_is_zero, &fvs[i])"}}
+            users, stores, newptrs = [], [], []
+            for root, dirs, files in os.walk(core.REPO):
+                rel = os.path.relpath(root, core.REPO)
+                dirs[:] = [d for d in dirs if not d.startswith(".") and d not in ("testdata", "external_jsonlib_test", "fuzz", "generic_test", "issue_test")]
+                if rel.startswith(os.path.join("internal", "resolver")):
+                    continue
+                for fn in files:
+                    if not fn.endswith(".go") or fn.endswith("_test.go"):
+                        continue
+                    path = os.path.join(root, fn)
+                    try:
+                        raw = open(path).read()
+                    except OSError:
+                        continue
+                    if "ResolveStruct(" not in raw:
+                        continue
+                    src = strip(raw)
+                    relp = os.path.relpath(path, core.REPO)
+                    vs = set(re.findall(r"(\w+)\s*:?=\s*resolver\.ResolveStruct\(", src))
+                    if not vs:
+                        continue
+                    users.append(relp)
+                    alt = "|".join(sorted(re.escape(v) for v in vs))
+                    aliases = set(re.findall(r"(\w+)\s*:?=\s*&(?:%s)\[" % alt, src))
+                    targets = alt + ("|" + "|".join(sorted(re.escape(a) for a in aliases)) if aliases else "")
+                    st = re.compile(r"^\s*\*?(?:(?:%s)\[[^\]]*\](?:\.\w+)*|(?:%s)(?:\.\w+)+)\s*(?:=|[-+*/%%|&^]=|&\^=|<<=|>>=|\+\+|--)(?!=)"
+                                    % (alt, "|".join(sorted(re.escape(a) for a in aliases)) or "\x00"))
+                    for ln in src.split("\n"):
+                        if st.search(ln):
+                            stores.append("%s: %s" % (relp, ln.strip()[:120]))
+                        if re.search(r"&(?:%s)\[" % alt, ln) and ln.strip() not in allowed_ptrs.get(relp, ()):
+                            newptrs.append("%s: %s" % (relp, ln.strip()[:120]))
+            facts["ResolveStruct users"] = sorted(users)
+            if stores:
+                tie("store-into-shared-field-metadata", "a store through the slice returned by resolver.ResolveStruct (the process-wide fieldCache entry) "
+                    "outside internal/resolver: later compiles of the same type by the encoder and both decoders read the modified metadata: " + "; ".join(stores[:4]))
+            if newptrs:
+                tie("new-pointer-into-shared-field-metadata", "a pointer into the slice returned by resolver.ResolveStruct that is not in the expectation "
+                    "table (allowed: read-only p.VField(ir.OP_is_zero, &fvs[i])): " + "; ".join(newptrs[:4]))
+            if not stores and not newptrs:
+                facts["shared field metadata"] = "no store through / no unexpected pointer into ResolveStruct's result outside internal/resolver"
         except OSError as e:
             tie("source-unreadable", str(e))
         ctx["run"].cov["source_facts"] = facts
